@@ -4,6 +4,6 @@ CONSTANTS
   RT = 2
   Offsets = {0, 4, 8}
   MaxIdx = 15
-INVARIANTS TypeOK NeverForgetsNorInvents GetInPlace NoZeroBelowOffset HeadNotFullAfterSet MonitorEquiv RangeFormAgrees RunFullAgrees
+INVARIANTS TypeOK NeverForgetsNorInvents GetInPlace NoZeroBelowOffset HeadNotFullAfterSet MonitorEquiv RangeFormAgrees RunFullAgrees FarFormAgrees
 PROPERTIES FunctionalFormsAgree OffsetMonotone CompactKeepsGets PassedOnlySet
 CHECK_DEADLOCK FALSE
